@@ -440,6 +440,9 @@ Definition same_kind (a b : kmstate) : Prop :=
 Lemma same_kind_refl a : same_kind a a.
 Proof. destruct a; exact I. Qed.
 
+Lemma same_kind_sym a b : same_kind a b -> same_kind b a.
+Proof. destruct a, b; cbn; tauto. Qed.
+
 Lemma same_kind_trans a b c : same_kind a b -> same_kind b c -> same_kind a c.
 Proof. destruct a, b, c; cbn; tauto. Qed.
 
@@ -568,11 +571,10 @@ Proof.
       specialize (IH (km_step H st s) (Some (a, k)) alg kd).
       destruct IH as [Hr [Hs' Hk']]; [|exact Hl|].
       * cbn [acc_inv]. split; [|split; [rewrite (km_size_kind _ _ Hkind); exact Hs|exact Hk]].
-        rewrite Hst at 1. apply placed_state_kind. rewrite <- Hst.
-        apply same_kind_trans with (b := km_step H st s); [|apply same_kind_refl].
-        apply same_kind_refl.
+        transitivity (placed_state H st a k); [exact Hst|].
+        apply placed_state_kind. apply same_kind_sym. exact Hkind.
       * fold (km_run H (km_step H st s) t). split; [|split; auto].
-        -- unfold km_run in Hr. rewrite Hr. apply placed_state_kind. exact Hkind.
+        -- rewrite Hr. apply placed_state_kind. exact Hkind.
         -- rewrite <- (km_size_kind _ _ Hkind). exact Hs'.
     + rewrite Hsp in *. apply (IH st acc alg kd Hinv Hl).
 Qed.
@@ -602,7 +604,7 @@ Proof.
   destruct (step_places H st0 s) as [[a k]|] eqn:Hp.
   - exfalso. clear IH Hsp.
     assert (Hsome : forall st acc, acc <> None -> last_placed H st t acc <> None).
-    { induction t as [|s' t' IHt]; intros st acc Ha; cbn [last_placed]; [exact Ha|].
+    { clear Hl. induction t as [|s' t' IHt]; intros st acc Ha; cbn [last_placed]; [exact Ha|].
       apply IHt. destruct (step_places H st s'); [discriminate|exact Ha]. }
     apply (Hsome (km_step H st0 s) (Some (a, k))); [discriminate|exact Hl].
   - rewrite Hsp in *. apply (IH st0 Hl).
